@@ -6,6 +6,8 @@
 use vstd::prelude::*;
 verus! {
 global size_of usize == 8;
+//@extract consts src/blockchain/proto/script/mod.rs
+//@end
 
 #[allow(unused_macros)] macro_rules! warn { ($($t:tt)*) => { () } }
 #[allow(unused_macros)] macro_rules! format { ($fmt:expr, $a:expr) => { crate::fmt_address(&$a) } }
